@@ -380,7 +380,28 @@ pub fn gen_handle_then(rng: &mut crate::prng::Rng) -> History {
 pub fn gen_stale_instants(rng: &mut crate::prng::Rng) -> History {
     let back = *rng.pick(&[1u64, 500, 10_000, 30_000, 39_499, 39_500, 120_000]);
     let mut ops = vec![];
-    match rng.below(3) {
+    match rng.below(5) {
+        3 => {
+            // the FIRST instant the agent ever sees is the late one: A is sent late and answered (or
+            // cancelled and reaped), then B is started with an earlier instant
+            ops.push(Op::Advance(back));
+            ops.push(req(0, 0, Sealing::None, 2));
+            if rng.chance(1, 2) {
+                ops.push(Op::Response { tid: 0, from: 0, error: false, seal: RespSeal::Unsigned, fp: false });
+            } else {
+                ops.push(Op::Cancel(0));
+                ops.push(Op::Poll(PollAt::Now));
+            }
+            ops.push(Op::Rewind(back));
+            ops.push(req(1, 2, Sealing::None, 3));
+        }
+        4 => {
+            // an idle agent is polled late (nothing outstanding), then a request is started earlier
+            ops.push(Op::Advance(back));
+            ops.push(Op::Poll(PollAt::Now));
+            ops.push(Op::Rewind(back));
+            ops.push(req(1, 2, Sealing::None, 3));
+        }
         0 => {
             // an indication far in the "future", then a request now
             ops.push(Op::Advance(back));
